@@ -46,6 +46,44 @@ SB_OP(facc)
     add(out, (long long)o.rc);
 }
 
+// faccseq route hex1 hex2 ... -> rc of init for each file, all loaded one after the other from the SAME caller
+// buffer (memory route: altered in place) or the same descriptor (rewritten): a verdict must depend on the bytes
+// that are there now, not on what was loaded from that place before
+SB_OP(faccseq)
+{
+    std::vector<std::vector<uint8_t>> files;
+    size_t maxlen = 1;
+    for (size_t i = 3; i < t.size(); i++) {
+        files.push_back(unhex(t[i]));
+        maxlen = std::max(maxlen, files.back().size());
+    }
+    if (t[2] == "m") {
+        uint8_t* block = (uint8_t*)malloc(maxlen);
+        for (auto& f : files) {
+            // same start address and (for equal lengths) the same size; the tail beyond the file is poisoned by
+            // using an exact-size view only when the length equals the block size
+            if (!f.empty())
+                memcpy(block, f.data(), f.size());
+            sb_binary_file_parser_t parser;
+            memset(&parser, 0, sizeof(parser));
+            sb_error_t rc = sb_binary_file_parser_init_from_buffer(&parser, block, f.size());
+            add(out, (long long)rc);
+            sb_binary_file_parser_destroy(&parser);
+        }
+        free(block);
+    } else {
+        for (auto& f : files) {
+            int fd = make_fd(f);
+            sb_binary_file_parser_t parser;
+            memset(&parser, 0, sizeof(parser));
+            sb_error_t rc = sb_binary_file_parser_init_from_file(&parser, fd);
+            add(out, (long long)rc);
+            sb_binary_file_parser_destroy(&parser);
+            close(fd);
+        }
+    }
+}
+
 static std::string body_of_current(sb_binary_file_parser_t* p)
 {
     sb_binary_block_t blk = sb_binary_file_get_current_block(p);
